@@ -111,6 +111,7 @@ def classify(prop, ename, rec, fail, known):
 
 
 def write_replay(prop, payload):
+    payload = common.jenc(payload)
     name = f"{prop}-{common.sha(json.dumps(payload, default=str))}.json"
     path = common.REPLAYS / name
     common.jdump(payload, path)
@@ -183,7 +184,7 @@ class Check:
                 except Exception as e:  # noqa: BLE001
                     self.infra_errors.append(f"{ename}#{r['idx']} histogram: {e}")
                 if len(self.cov["samples"]) < 3:
-                    self.cov["samples"].append({"engine": ename, "index": r["idx"], "case": r["case"],
+                    self.cov["samples"].append({"engine": ename, "index": r["idx"], "case": common.jenc(r["case"]),
                                                 "model_lines": r["lines"][:2], "model_out": r["model"][:2]})
             pf = [f for f in r["fails"] if f[0] == self.prop]
             pd = [d for d in r["diffs"] if self.prop in d[1]]
@@ -254,7 +255,7 @@ class Check:
         if not d.exists():
             return
         for p in sorted(d.glob("*.json")):
-            item = json.loads(p.read_text())
+            item = common.jdec(json.loads(p.read_text()))
             ename = item["engine"]
             recs = run_cases(ename, [(ename, -1, self.tier, common.seed(), None, item["case"])], self.driver)
             self.cov.setdefault("corpus_replayed", 0)
@@ -366,7 +367,7 @@ def main(argv):
 
 
 def replay(chk, spec, path):
-    item = json.loads(open(path).read())
+    item = common.jdec(json.loads(open(path).read()))
     target = item.get("failing_input") or item
     if "case" not in target or "engine" not in item:
         print(f"replay file names no executable case: {item.get('theorem_or_correspondence')}")
